@@ -30,6 +30,7 @@ fn case_for(seed: u64, idx: u64, max_n: usize, big_n: usize) -> Case {
             &GenLimits {
                 max_n: n,
                 min_n: n * 3 / 4,
+                max_n_3d: 1500,
                 ..Default::default()
             },
         );
@@ -148,8 +149,11 @@ pub fn cmd_e3(args: &Args) -> i32 {
         let variant = vcore::case::derive_variant(&mut vr, &base);
         let seq: Vec<&Case> = vec![&base, &variant, &base];
         for (step, case) in seq.into_iter().enumerate() {
-            if step > 0 && idx % 2 == 1 {
+            if step > 0 && (idx % 2 == 1 || is_big(idx)) {
                 break;
+            }
+            if t0.elapsed().as_secs_f64() > time_limit + 5.0 {
+                break 'outer;
             }
             let case = case.clone();
             let big = is_big(idx);
@@ -167,6 +171,9 @@ pub fn cmd_e3(args: &Args) -> i32 {
             // two simultaneous callers (global pool, and two pools of 4)
             if step == 0 {
                 for &t in &[0usize, 4] {
+                    if big && t != 0 {
+                        continue;
+                    }
                     let (a, b) = run_two_callers(&case, *op, t);
                     two_caller_evals += 2;
                     evals += 2;
@@ -196,6 +203,9 @@ pub fn cmd_e3(args: &Args) -> i32 {
                 }
             }
             for &t in &pools {
+                if big && t != 0 && t != 3 {
+                    continue;
+                }
                 // twice: repeated calls in one process must agree too
                 for _rep in 0..2 {
                     let o = run_real_in_pool(&case, *op, t);
